@@ -27,7 +27,7 @@ from .. import tlc
 # scale index -> factor applied to a base design whose dimensions lie in [2, 20]; the probed design has factor 1.
 # Every dimension of every history design is then within 1000x of every dimension of the probed design.
 FACTORS = [F(1, 50), F(1, 7), F(1), F(7), F(50)]
-KINDS = ["netlist", "die", "alloc", "stog", "encode", "legal", "strop"]
+KINDS = ["netlist", "die", "alloc", "stog", "encode", "legal", "strop", "initalloc"]
 HIST_KINDS = KINDS + ["undef", "pads"]  # undef = the public call Rectangle.undefine_epsilon(); pads = a netlist of terminals only
 PROBE_KINDS = KINDS + ["sliver"]
 STEPS = [F(1, 10), F(1, 3), F(7, 10), F(11, 10), F(1)]
@@ -113,7 +113,7 @@ def d_die(rng: random.Random, f: F, bad: bool = False):
     return {"width": fl(W * u), "height": fl(H * u), "regions": regs}
 
 
-def d_alloc(rng: random.Random, f: F):
+def d_alloc(rng: random.Random, f: F, bad: bool = False):
     u = unit(rng, f)
     n = rng.randint(2, 4)
     cells = []
@@ -123,7 +123,28 @@ def d_alloc(rng: random.Random, f: F):
         alloc = {} if rng.random() < 0.15 else {"M1": rng.choice([0.0, 0.25, 0.3, 0.5]), "M2": rng.choice([0.1, 0.5, 0.7])}
         cells.append([[fl((x + F(w, 2)) * u), fl(3 * u), fl(w * u), fl(6 * u)], alloc])
         x += w
+    if bad:   # two cells overlap by half a unit: the allocation must be refused, first thing in a process or not
+        c = cells[-1]
+        cells.append([[fl(F(c[0][0]) + F(c[0][2]) / 2), c[0][1], c[0][2], c[0][3]], {"M1": 0.5}])
     return cells
+
+
+def d_initalloc(rng: random.Random, f: F, bad: bool = False):
+    """a die and a netlist of soft modules with rectangles, for create_initial_allocation; `bad`: a module with two NESTED
+    rectangles (a legal netlist: soft rectangles may overlap) covers some cell more than once, which the allocation
+    refuses ('Invalid allocation') after part of the work has been done"""
+    u = unit(rng, f)
+    W, H = rng.randint(6, 10), rng.randint(6, 10)
+    mods = {}
+    for i in range(rng.randint(1, 3)):
+        w, h = rng.randint(2, 4), rng.randint(2, 4)
+        x, y = rng.randint(0, W - w) + F(w, 2), rng.randint(0, H - h) + F(h, 2)
+        rects = [[fl(x * u), fl(y * u), fl(w * u), fl(h * u)]]
+        mods[f"S{i}"] = {"area": fl(w * h * u * u), "rectangles": rects}
+    if bad:
+        r = list(next(iter(mods.values()))["rectangles"][0])
+        mods["S0"]["rectangles"] = [r, [r[0], r[1], fl(F(r[2]) / 2), fl(F(r[3]) / 2)], [r[0], r[1], fl(F(r[2]) / 4), fl(F(r[3]) / 4)]]
+    return {"die": f"{fl(W * u)!r}x{fl(H * u)!r}", "net": {"Modules": mods, "Nets": []}, "n": rng.randint(2, 6)}
 
 
 def d_stog(rng: random.Random, f: F):
@@ -171,7 +192,9 @@ def d_encode(rng: random.Random):
         bound = rng.randint(1, max(1, sum(coefs) - 1))
         op = rng.choice([">=", "<="])
     return {"terms": terms, "bound": bound, "op": op, "decomp": rng.random() < 0.5,
-            "amo": rng.sample("abcd", rng.randint(0, 4)), "heule": rng.random() < 0.5}
+            "amo": rng.sample("abcd", rng.randint(0, 4)), "heule": rng.random() < 0.5,
+            # (history only) a whole run of tools/rect on another design first: ~80 large inequalities, > 10 000 diagram nodes
+            "bulk": rng.randrange(10 ** 6) if rng.random() < 0.25 else 0}
 
 
 def d_legal(rng: random.Random, f: F):
@@ -211,14 +234,19 @@ def d_sliver(rng: random.Random, f: F):
 def make_design(kind: str, seed: int, sidx: int, probe: bool = False):
     rng = random.Random(seed)
     f = FACTORS[sidx]
+    # a third of the probes are ill-formed designs (the verdict is a result too); in a history one operation in five is one
+    # that the library refuses half-way (seeded C20-12: a refused call must leave nothing behind either)
+    bad = (seed % 3 == 0) if probe else (seed % 5 == 0)
     if kind == "netlist":
-        return d_netlist(rng, f, bad=probe and seed % 3 == 0)
+        return d_netlist(rng, f, bad=bad)
     if kind == "pads":
         return d_netlist(rng, f, pads=True)
     if kind == "die":
-        return d_die(rng, f, bad=probe and seed % 3 == 0)
+        return d_die(rng, f, bad=bad)
     if kind == "alloc":
-        return d_alloc(rng, f)
+        return d_alloc(rng, f, bad=bad)
+    if kind == "initalloc":
+        return d_initalloc(rng, f, bad=bad)
     if kind == "stog":
         return d_stog(rng, f)
     if kind == "encode":
@@ -256,6 +284,7 @@ def op_netlist(doc):
         out.append(repr(float(n.wire_length)))
     except Exception as e:
         out.append(type(e).__name__)
+    out.append(n.write_yaml())        # the written document is a result too
     return out
 
 
@@ -268,22 +297,50 @@ def op_die(doc):
     ground = sorted(rrepr(r) for r in d.ground_regions)
     d.split_refinable_regions(1.5, 6)
     ref, fx = d.floorplanning_rectangles()
-    return ["accept", ground, sorted(rrepr(r) for r in ref), sorted(rrepr(r) for r in d.blockages)]
+    return ["accept", ground, sorted(rrepr(r) for r in ref), sorted(rrepr(r) for r in d.blockages), d.write_yaml()]
 
 
 def op_alloc(doc):
     from frame.allocation.allocation import Allocation
-    a = Allocation(doc)
+    try:
+        a = Allocation(doc)
+    except AssertionError as e:
+        return ["reject", str(e)[:30]]
     out = [int(a.must_be_refined(0.4))]
     a = a.refine(0.4, 2).griddify().uniform_refinement_depth()
     out.append(sorted([rrepr(x.rect)[:4], sorted(x.alloc.items()), x.depth] for x in a.allocations))
+    out.append(a.write_yaml())
     return out
+
+
+def op_initalloc(d):
+    from frame.netlist.netlist import Netlist
+    from frame.die.die import Die
+    from frame.allocation.allocation import create_initial_allocation
+    die = Die(d["die"], Netlist(d["net"]))
+    die.split_refinable_regions(1.5, d["n"])
+    try:
+        a = create_initial_allocation(die)
+    except AssertionError as e:
+        return ["refused", str(e)[:20]]
+    a = a.refine(0.5)
+    return ["ok", sorted([rrepr(x.rect)[:4], sorted(x.alloc.items()), x.depth] for x in a.allocations), a.write_yaml()]
 
 
 def op_encode(d):
     from tools.rect.satmanager import SATManager
     from tools.rect.pseudobool import Expr
     from pysat.solvers import Solver
+    if d.get("bulk") and d.get("in_history"):
+        rb = random.Random(d["bulk"])
+        for _ in range(80):
+            mb = SATManager()
+            vs = [mb.newvar(f"v{i}", "") for i in range(14)]
+            cs = [rb.randint(1, 60) for _ in vs]
+            eb = Expr()
+            for c, v in zip(cs, vs):
+                eb = eb + v * c
+            mb.pseudoboolencoding(eb >= sum(cs) // 2, False)
     m = SATManager()
     lits = {v: m.newvar(v, "") for v in "abcd"}
     e = Expr()
@@ -363,7 +420,7 @@ def op_undef(_d):
     return ["undefined"]
 
 
-OPS = {"undef": op_undef, "pads": op_netlist, "sliver": op_netlist, "netlist": op_netlist, "die": op_die, "alloc": op_alloc, "stog": op_netlist, "encode": op_encode,
+OPS = {"undef": op_undef, "initalloc": op_initalloc, "pads": op_netlist, "sliver": op_netlist, "netlist": op_netlist, "die": op_die, "alloc": op_alloc, "stog": op_netlist, "encode": op_encode,
        "legal": op_legal, "strop": op_strop}
 
 
@@ -412,8 +469,12 @@ def run_behaviour(b):
     events = []
     for (kind, sidx, seed) in b["hist"]:
         before = _eps_state(Rectangle)
-        safe(kind, as_document(kind, make_design(kind, seed, sidx), seed, True))
-        events.append([kind, sidx, int(_eps_state(Rectangle) != before), len(getattr(pseudobool, 'memory', ()))])
+        design = make_design(kind, seed, sidx)
+        if kind == "encode":
+            design["in_history"] = True
+        r = safe(kind, as_document(kind, design, seed, True))
+        refused = int(isinstance(r, list) and len(r) > 0 and r[0] in ("reject", "refused", "raised"))
+        events.append([kind, sidx, int(_eps_state(Rectangle) != before), len(getattr(pseudobool, 'memory', ())), refused])
     res = safe(b["probe"], as_document(b["probe"], make_design(b["probe"], b["pseed"], 2, probe=True), b["pseed"], False))
     return {"events": events, "digest": as_ints(res), "res": res if b.get("keep") else None}
 
@@ -447,7 +508,7 @@ def run(ctx: Ctx) -> int:
             behaviours.append({"hist": hist, "probe": "sliver", "pseed": rng.randrange(300)})
         # same-subsystem histories: most leak channels are shared by operations of one kind (the tolerance registers by
         # the loaders, the diagram store by encodings, the expression-tree globals by legaliser models)
-        loaders = ["netlist", "die", "alloc", "stog", "legal", "pads"]
+        loaders = ["netlist", "die", "alloc", "stog", "legal", "pads", "initalloc"]
         for k in KINDS:
             for _ in range(60 if tier == "quick" else 600):
                 prev = loaders if k in loaders else [k]
@@ -457,6 +518,11 @@ def run(ctx: Ctx) -> int:
         for _ in range(60 if tier == "quick" else 800):
             hist = [["die", rng.choice([0, 1, 2, 2, 3, 4]), rng.randrange(10 ** 6)] for _ in range(rng.randint(1, 3))]
             behaviours.append({"hist": hist, "probe": "die", "pseed": rng.randrange(300)})
+        # an operation the library refuses half-way, then a design it must refuse (or accept) as a fresh process would
+        for _ in range(60 if tier == "quick" else 800):
+            hist = [[rng.choice(["initalloc", "initalloc", "alloc", "netlist", "die"]), rng.choice([1, 2, 2, 3]), 5 * rng.randrange(2 * 10 ** 5)]
+                    for _ in range(rng.randint(1, 2))]
+            behaviours.append({"hist": hist, "probe": rng.choice(["alloc", "alloc", "netlist", "die", "initalloc"]), "pseed": 3 * rng.randrange(100)})
         # longer random histories than TLC enumerates
         for _ in range(300 if tier == "quick" else 4000):
             hist = [[rng.choice(HIST_KINDS), rng.randrange(5), rng.randrange(10 ** 6)] for _ in range(rng.randint(3, 6))]
